@@ -785,11 +785,23 @@ func (c *Ctx) checkCompress() {
 		okWalk = same && incOK && okVal && startZero
 		det = fmt.Sprintf("weight index and column index are the same variable: %v; it is 0 when the walk starts: %v; it is incremented exactly once per pattern after both uses: %v; the weight stored is the full-width counter: %v", same, startZero, incOK, okVal)
 	}
+	appendForm := false
+	if !(okLen && okWalk) {
+		// the list of weights grown by the walk itself: column index = len(weights) before the
+		// callback appends the counter, once, on every path
+		if ok, d2 := compressAppendForm(fn); ok {
+			okLen, okWalk, det, appendForm = true, true, d2, true
+		}
+	}
 	L.Check(okLen && okWalk, "compress-weights", r.label, "weights[k] and column k of the k-th pattern", c.P.Pos(fn.Pos()), "weights = make([]int, npat); "+det, fmt.Sprintf("weights has npat entries: %v; %s", okLen, det))
 	L.Floor("compress-weights", 1, "pattern walk")
 
 	lc := newLinCtx(c, fn)
-	L.Check(sameStableCell(fn, lc), "compress-length", r.label, "rows[:npat] and length = npat", c.P.Pos(fn.Pos()), "same variable, no store or closure creation in between", "row truncation and cached length use different values")
+	okLength := sameStableCell(fn, lc)
+	if !okLength && appendForm {
+		okLength = compressLengthFromList(fn)
+	}
+	L.Check(okLength, "compress-length", r.label, "rows[:npat] and length = npat", c.P.Pos(fn.Pos()), "same variable, no store or closure creation in between", "row truncation and cached length use different values")
 	L.Floor("compress-length", 1, "one function")
 }
 
@@ -891,4 +903,193 @@ func relayPassesCounter(fn, cl *ssa.Function, pv *ssa.Parameter) bool {
 		}
 	})
 	return good && n == 1
+}
+
+// compressAppendForm: the weights are a captured slice that is empty when the walk starts; the
+// callback writes the pattern at column len(weights) (read before anything is appended) and then
+// appends the record's counter exactly once on every path.
+func compressAppendForm(fn *ssa.Function) (bool, string) {
+	for _, cl := range fn.AnonFuncs {
+		// the captured []int cell
+		var wfv *ssa.FreeVar
+		for _, fv := range cl.FreeVars {
+			if p, ok := fv.Type().Underlying().(*types.Pointer); ok {
+				if sl, ok := p.Elem().Underlying().(*types.Slice); ok {
+					if b, ok := sl.Elem().Underlying().(*types.Basic); ok && b.Kind() == types.Int {
+						wfv = fv
+					}
+				}
+			}
+		}
+		if wfv == nil {
+			continue
+		}
+		var stores []*ssa.Store
+		var colStores []*ssa.Store
+		allInstrs(cl, func(in ssa.Instruction) {
+			st, ok := in.(*ssa.Store)
+			if !ok {
+				return
+			}
+			if st.Addr == ssa.Value(wfv) {
+				stores = append(stores, st)
+			}
+			if ia, ok := st.Addr.(*ssa.IndexAddr); ok {
+				if sl, ok := ia.X.Type().Underlying().(*types.Slice); ok {
+					if b, ok := sl.Elem().Underlying().(*types.Basic); ok && b.Kind() == types.Uint8 {
+						colStores = append(colStores, st)
+					}
+				}
+			}
+		})
+		if len(stores) != 1 || len(colStores) == 0 {
+			continue
+		}
+		ap, ok := stores[0].Val.(*ssa.Call)
+		if !ok || builtinName(ap.Common()) != "append" {
+			continue
+		}
+		// appended to the current list
+		base, ok := ap.Common().Args[0].(*ssa.UnOp)
+		if !ok || base.X != ssa.Value(wfv) {
+			continue
+		}
+		// one element: the record's counter
+		okVal := false
+		if sl, ok := ap.Common().Args[1].(*ssa.Slice); ok {
+			if al, ok := sl.X.(*ssa.Alloc); ok && tableArrayType(al.Type()) != nil && tableArrayType(al.Type()).Len() == 1 {
+				for _, ref := range *al.Referrers() {
+					if ia, ok := ref.(*ssa.IndexAddr); ok {
+						for _, r2 := range *ia.Referrers() {
+							if st, ok := r2.(*ssa.Store); ok {
+								if u, ok := st.Val.(*ssa.UnOp); ok && isIntType(u.Type()) {
+									rec := u.X
+									if fa, ok := rec.(*ssa.FieldAddr); ok {
+										rec = fa.X
+									}
+									if ta, ok := rec.(*ssa.TypeAssert); ok && len(cl.Params) >= 2 && ta.X == ssa.Value(cl.Params[1]) {
+										okVal = true
+									}
+								}
+							}
+						}
+					}
+				}
+			}
+		}
+		// every column store uses len(weights) read before the append, and the append is executed on every path
+		okIdx := true
+		for _, cs := range colStores {
+			idx := cs.Addr.(*ssa.IndexAddr).Index
+			call, ok := idx.(*ssa.Call)
+			if !ok || builtinName(call.Common()) != "len" {
+				okIdx = false
+				continue
+			}
+			ld, ok := call.Common().Args[0].(*ssa.UnOp)
+			if !ok || ld.X != ssa.Value(wfv) || !instrDominates(ld, stores[0]) {
+				okIdx = false
+			}
+		}
+		pd := newPostDom(cl, nil)
+		okAlways := true
+		for _, cs := range colStores {
+			if !pd.instrPostDominates(stores[0], cs) {
+				okAlways = false
+			}
+		}
+		if len(cl.Blocks) > 0 && len(cl.Blocks[0].Instrs) > 0 && !pd.instrPostDominates(stores[0], cl.Blocks[0].Instrs[0]) {
+			okAlways = false
+		}
+		// empty when the walk starts: the cell holds make([]int, 0, …) and nothing else stores to it in fn
+		okEmpty := false
+		var mc *ssa.MakeClosure
+		allInstrs(fn, func(in ssa.Instruction) {
+			if m, ok := in.(*ssa.MakeClosure); ok && m.Fn == ssa.Value(cl) {
+				mc = m
+			}
+		})
+		if mc != nil {
+			for i, fv := range cl.FreeVars {
+				if fv != wfv || i >= len(mc.Bindings) {
+					continue
+				}
+				cell := mc.Bindings[i]
+				n := 0
+				for _, ref := range *cell.Referrers() {
+					if st, ok := ref.(*ssa.Store); ok && st.Addr == cell {
+						n++
+						if mk, ok := st.Val.(*ssa.MakeSlice); ok {
+							if k, ok := constInt(mk.Len); ok && k == 0 && instrDominates(st, mc) {
+								okEmpty = true
+							}
+						}
+					}
+				}
+				if n != 1 {
+					okEmpty = false
+				}
+			}
+		}
+		det := fmt.Sprintf("weights grown by the walk: column index is len(weights) read before the append: %v; the counter of the record is appended exactly once on every path: %v (value: %v); the list is empty when the walk starts: %v", okIdx, okAlways, okVal, okEmpty)
+		return okIdx && okAlways && okVal && okEmpty, det
+	}
+	return false, ""
+}
+
+// compressLengthFromList: rows are truncated to len(weights) and the cached length is set to
+// len(weights), both read from the same cell after the walk with no store to it in between.
+func compressLengthFromList(fn *ssa.Function) bool {
+	var lenStore *ssa.Store
+	allInstrs(fn, func(in ssa.Instruction) {
+		if st, ok := in.(*ssa.Store); ok {
+			if t, f, fa := fieldAddrOf(st.Addr); fa != nil && t == "align" && f == "length" {
+				lenStore = st
+			}
+		}
+	})
+	if lenStore == nil {
+		return false
+	}
+	cellOfLen := func(v ssa.Value) ssa.Value {
+		call, ok := v.(*ssa.Call)
+		if !ok || builtinName(call.Common()) != "len" {
+			return nil
+		}
+		ld, ok := call.Common().Args[0].(*ssa.UnOp)
+		if !ok {
+			return nil
+		}
+		if _, isCell := ld.X.(*ssa.Alloc); !isCell {
+			return nil
+		}
+		return ld.X
+	}
+	cell := cellOfLen(lenStore.Val)
+	if cell == nil {
+		return false
+	}
+	okRows, n := true, 0
+	allInstrs(fn, func(in ssa.Instruction) {
+		st, ok := in.(*ssa.Store)
+		if !ok {
+			return
+		}
+		if t, f, fa := fieldAddrOf(st.Addr); fa == nil || t != "seq" || f != "sequence" {
+			return
+		}
+		n++
+		sl, ok := st.Val.(*ssa.Slice)
+		if !ok || sl.Low != nil || sl.High == nil || cellOfLen(sl.High) != cell {
+			okRows = false
+		}
+	})
+	// no store to the cell in fn after the walk (the closure is the only writer)
+	stores := 0
+	for _, ref := range *cell.Referrers() {
+		if st, ok := ref.(*ssa.Store); ok && st.Addr == cell {
+			stores++
+		}
+	}
+	return okRows && n > 0 && stores == 1
 }
